@@ -750,7 +750,14 @@ def _skip_event(*events, **kwargs):
     if changed is None:
         return False
     for e in events:
-        for p in changed:
+        if isinstance(changed, dict):
+            # Sub-parameters to compare, per watched parameter
+            subparams = changed.get(e.name)
+            if subparams is None:
+                return False
+        else:
+            subparams = [(p, what) for p in changed]
+        for p, what in subparams:
             if what == 'value':
                 old = Undefined if e.old is None else _getattrr(e.old, p, None)
                 new = Undefined if e.new is None else _getattrr(e.new, p, None)
@@ -2388,18 +2395,29 @@ class Parameters:
         that we update the existing watchers, i.e. clean up watchers
         on the old subobject and create watchers on the new subobject.
         """
-        dynamic_dep, param_dep = group[0]
+        _, param_dep = group[0]
         dep_obj = param_dep.cls if param_dep.inst is None else param_dep.inst
         params = []
         for _, g in group:
             if g.name not in params:
                 params.append(g.name)
 
-        if dynamic_dep is None:
-            subparams, callback, what = None, None, param_dep.what
-        else:
-            subparams, callback, what = self_._resolve_dynamic_deps(
-                obj, dynamic_dep, param_dep, attribute)
+        # Every dependency of the group contributes the sub-parameters
+        # to compare when the parameter it watches is replaced
+        subparams, callback, what = {}, None, param_dep.what
+        for dynamic_dep, g in group:
+            if dynamic_dep is None:
+                subps, cb, dep_what = None, None, g.what
+            else:
+                subps, cb, dep_what = self_._resolve_dynamic_deps(
+                    obj, dynamic_dep, g, attribute)
+            callback = callback or cb
+            if subps is None:
+                subparams[g.name] = None
+            elif subparams.get(g.name, []) is not None:
+                subparams.setdefault(g.name, []).extend((sp, dep_what) for sp in subps)
+        if all(subps is None for subps in subparams.values()):
+            subparams = None
 
         mcaller = _m_caller(obj, name, what, subparams, callback)
         return dep_obj.param._watch(
